@@ -13,22 +13,22 @@ CONSTANTS
   ZDCode = {30309,120703,3003705}
   Delivery = "by_prior"
   Passes = "user_table"
-  QNum = {0,7,13,3012}
+  QNum = {7,13,3012}
   QShift = 12
   QDen = {4}
-  ENum = {6,12,14}
+  ENum = {6,14}
   EShift = 12
   SNum = {3}
   SDen = {4}
-  Conts = {"tuple","list","ndarray"}
+  Conts = {"tuple","ndarray"}
   Hows = {"direct","text"}
   Depth = 0
   Export = FALSE
   SetWeight = 1
+  RareWeight = 1
   Setter = "rebuilds"
-INVARIANT ZOk
 INVARIANT ObjectInv
-INVARIANT FitsInv
+INVARIANT ClausesInv
 CONSTRAINT Bound
 CONSTRAINT Emit
 CHECK_DEADLOCK FALSE
